@@ -40,6 +40,7 @@ void vf_finish(void);                      // scenario done: end the execution s
 unsigned long vf_stamp(void);              // global logical time stamp (ordered event, part of the HB fingerprint)
 unsigned long vf_steps(void);
 void vf_log(const char* fmt, ...) __attribute__((format(printf,1,2)));    // only printed in verbose replay
+int  vf_nblocks(void);                     // how often the calling thread went to sleep (futex/mutex/once) so far
 void vf_liveness(int on);                  // a step-horizon hit inside this region is a hang (violation), not inconclusive
 
 // ---- happens-before oracle on harness payload (active with -hb)
